@@ -99,6 +99,9 @@ func newRecorder(ssrc uint32, clockRate float64, loggerFactory logging.LoggerFac
 		maxLastReceiverReferenceTimes: 5,
 		latestStats:                   &internalStats{},
 		ms:                            &sync.Mutex{},
+		// The interceptor calls Start from a goroutine of its own: a recorder that only
+		// records once that goroutine ran misses the first packets of the stream.
+		running: 1,
 	}
 }
 
